@@ -1302,9 +1302,9 @@ class Interp:
         if name == "map":
             if len(args) >= 2:
                 f = args[0]
-                ek = elem_of(args[1])
                 if isinstance(f, Fn):
-                    r = self.call(f, node, [(None, ek)], {}, False, env, fr)
+                    # map(f, xs, ys): f is called with one element of EVERY iterable
+                    r = self.call(f, node, [(None, elem_of(a_)) for a_ in args[1:]], {}, False, env, fr)
                     return Lst(r)
             return Lst(TOP)
         if name == "filter":
